@@ -118,3 +118,10 @@ impl<T> Default for Versioned<T> {
 
 #[derive(Debug)]
 pub struct VersionMarker;
+
+//------------ Verification hook ---------------------------------------------
+
+// Kani harnesses for this (private) module live outside the repository.
+#[cfg(kani)]
+#[path = "/verif/kani/incrate/versioned.rs"]
+mod verif_kani;
